@@ -127,7 +127,11 @@ impl<'a> Mover<'a> {
         self.expect_len(base)?;
         self.go(g)?;
         self.expect(s1, false, &format!("{what}: after undoing and redoing the {g} step(s) of the history"))?;
-        self.expect_len(base)
+        self.expect_len(base)?;
+        if self.st.can_redo() {
+            return Err(failure("undo_len", format!("{what}: all {g} step(s) were redone but can_redo() is still true")));
+        }
+        Ok(())
     }
 }
 
@@ -146,11 +150,17 @@ pub enum Mode {
 
 /// Core procedure on one list of operations (no second phase).
 pub fn run_core(doc: &DocM, ops: &[Op], walk: &[u16], mode: Mode) -> Run {
+    let targets: Vec<usize> = if mode == Mode::Walk { walk.iter().map(|m| pick(*m, ops.len() + 1)).collect() } else { Vec::new() };
+    run_core_at(doc, ops, targets, mode, None)
+}
+
+/// like `run_core`, with the operation boundaries to visit given directly (number of operations executed before the boundary)
+/// `model_steps`: number of undo steps the history must register (checked before any undo)
+pub fn run_core_at(doc: &DocM, ops: &[Op], targets: Vec<usize>, mode: Mode, model_steps: Option<usize>) -> Run {
     let mut st = Box::new(doc.build());
     let mut it = Interp::default();
     let len0 = st.undo_stack_len();
     let s0 = snapshot::take(st.get_buffer());
-    let targets: Vec<usize> = if mode == Mode::Walk { walk.iter().map(|m| pick(*m, ops.len() + 1)).collect() } else { Vec::new() };
     // marks[j] = snapshot after j operations, where no atomic group is open and the walk wants it
     let mut marks: Vec<Option<Snapshot>> = vec![None; ops.len() + 1];
     let mut depth_after: Vec<Option<usize>> = Vec::with_capacity(ops.len());
@@ -160,11 +170,11 @@ pub fn run_core(doc: &DocM, ops: &[Op], walk: &[u16], mode: Mode) -> Run {
         let r = guarded(|| it.apply(&mut st, op));
         match r {
             Ok((Ok(()), t)) => touches.push(t),
-            Ok((Err(_), _)) => {
+            Ok((Err(e), _)) => { if std::env::var_os("C08_ENDED").is_some() { println!("ENDED {} at {i}: Err {e}", op.kind()); }
                 let _ = guarded(|| it.close_all());
                 return Run::Ended { index: i, kind: op.kind(), panic: false };
             }
-            Err(_) => {
+            Err((sig, _)) => { if std::env::var_os("C08_ENDED").is_some() { println!("ENDED {:?} at {i}: {sig}", op); }
                 // the state may be inconsistent (poisoned lock): dispose of it under a guard
                 let _ = guarded(move || {
                     it.close_all();
@@ -203,6 +213,14 @@ pub fn run_core(doc: &DocM, ops: &[Op], walk: &[u16], mode: Mode) -> Run {
         return Run::Failed(failure("undo_len", format!("undo stack shrank from {len0} to {len1} during the history")));
     }
     let g = len1 - len0;
+    if let Some(m) = model_steps {
+        if m != g {
+            return Run::Failed(failure(
+                "undo_len",
+                format!("the model counts {m} undo step(s) for this history (one per step operation, one per atomic group) but the undo stack grew by {g} (from {len0} to {len1})"),
+            ));
+        }
+    }
     if let Some(last) = depth_after.last_mut() {
         *last = Some(g); // groups still open were closed just now
     }
@@ -442,6 +460,228 @@ fn scan_with(c: &Case, ops: &[Op], f: &Failure, note: &str, mode: Mode) -> Optio
         }
     }
     None
+}
+
+// ---------------------------------------------------------------------------------------------------------------------
+// long histories: history length is a dimension of its own (caps at 256 / 512 / 1024 / 4096 steps ...)
+
+/// A long history in compact form: item i of the history is a pure function of (seed, i), so shortening `n` keeps the
+/// first items unchanged. Every item is cheap and always succeeds on the small document; items marked "step" register
+/// exactly one undo step (an atomic group of 2..=5 set_char counts as one).
+#[derive(Clone, Debug, Hash, Serialize, Deserialize)]
+pub struct LongCase {
+    pub w: u8,
+    pub h: u8,
+    pub two_layers: bool,
+    pub seed: u64,
+    /// number of items
+    pub n: u32,
+    /// atomic groups of 2..=5 set_char
+    pub groups: bool,
+    /// whole-buffer steps: resize_buffer with/without layers, set_ice_mode, set_palette_mode (their undo records hold copies of all layers)
+    pub whole: bool,
+    /// an occasional flip_x / flip_y (about one item in 400)
+    pub flips: bool,
+}
+
+fn mix(seed: u64, i: u64, k: u64) -> u64 {
+    // splitmix64 over (seed, item, draw)
+    let mut z = seed ^ i.wrapping_mul(0x9E37_79B9_7F4A_7C15) ^ k.wrapping_mul(0xD1B5_4A32_D192_ED03);
+    z = z.wrapping_add(0x9E37_79B9_7F4A_7C15);
+    z = (z ^ (z >> 30)).wrapping_mul(0xBF58_476D_1CE4_E5B9);
+    z = (z ^ (z >> 27)).wrapping_mul(0x94D0_49BB_1331_11EB);
+    z ^ (z >> 31)
+}
+
+pub struct LongHistory {
+    pub doc: DocM,
+    pub ops: Vec<Op>,
+    /// item_end[j] = number of operations after item j
+    pub item_end: Vec<usize>,
+    /// undo steps the items register according to the model
+    pub steps: usize,
+}
+
+pub fn expand_long(c: &LongCase) -> LongHistory {
+    use crate::model::{CellM, LayerM, PalM};
+    let (w, h) = (c.w.clamp(10, 20), c.h.clamp(8, 12));
+    let cellm = |r: u64| CellM { ch: crate::model::CHARS[(r % 20) as usize], attr: [0u16, 0, 1, 8, 0x10][((r >> 8) % 5) as usize], fg: ((r >> 16) % 16) as u32, bg: ((r >> 24) % 8) as u32, font: 0 };
+    let base = LayerM {
+        full: true,
+        w,
+        h,
+        ox: 0,
+        oy: 0,
+        alpha: false,
+        visible: true,
+        locked: false,
+        pos_locked: false,
+        alpha_locked: false,
+        mode: 0,
+        role: 0,
+        transparency: 0,
+        default_font_page: 0,
+        storage: 0,
+        cells: (0..8).map(|k| ((mix(c.seed, 1 << 40, k) % w as u64) as u8, (mix(c.seed, 1 << 41, k) % h as u64) as u8, cellm(mix(c.seed, 1 << 42, k)))).collect(),
+    };
+    let mut layers = vec![base.clone()];
+    if c.two_layers {
+        layers.push(LayerM { full: false, w: 6, h: 4, ox: 2, oy: 1, alpha: true, cells: (0..4).map(|k| ((mix(c.seed, 1 << 43, k) % 6) as u8, (mix(c.seed, 1 << 44, k) % 4) as u8, cellm(mix(c.seed, 1 << 45, k)))).collect(), ..base });
+    }
+    let doc = DocM {
+        w,
+        h,
+        layers,
+        ice: 0,
+        pal_mode: 1,
+        font_mode: 0,
+        buffer_type: 0,
+        palette: PalM::Dos,
+        fonts: vec![],
+        sauce: None,
+        sel: None,
+        mask: vec![],
+        caret: (1, 1),
+        caret_font: 0,
+        cur: 0,
+        mirror: false,
+    };
+    let mut ops = Vec::with_capacity(c.n as usize + c.n as usize / 4);
+    let mut item_end = Vec::with_capacity(c.n as usize);
+    let mut steps = 0usize;
+    let set_char = |r: u64| Op::SetChar { x: (r % 8) as i8, y: ((r >> 8) % 6) as i8, c: cellm(r >> 16) };
+    for i in 0..c.n as u64 {
+        let r = mix(c.seed, i, 0);
+        let sel = r % 400;
+        let a = mix(c.seed, i, 1);
+        match sel {
+            0 if c.flips => {
+                ops.push(if a & 1 == 0 { Op::FlipX } else { Op::FlipY });
+                steps += 1;
+            }
+            1..=32 if c.groups => {
+                ops.push(Op::BeginAtomic);
+                for k in 0..2 + a % 4 {
+                    ops.push(set_char(mix(c.seed, i, 2 + k)));
+                }
+                ops.push(Op::EndAtomic { explicit: a & 16 != 0 });
+                steps += 1;
+            }
+            33..=40 if c.whole => {
+                ops.push(Op::SetIceMode { m: (a % 3) as u8 });
+                steps += 1;
+            }
+            41..=46 if c.whole => {
+                ops.push(Op::SetPaletteMode { m: [0u8, 1, 3][(a % 3) as usize] });
+                steps += 1;
+            }
+            47..=54 if c.whole => {
+                // never smaller than 8x6: both layers keep intersecting the buffer
+                ops.push(Op::ResizeBuffer { layers: a & 1 == 0, w: 8 + ((a >> 8) % 13) as u8, h: 6 + ((a >> 16) % 7) as u8 });
+                steps += 1;
+            }
+            55..=78 => {
+                ops.push(Op::MoveLayer { x: ((a % 5) as i8) - 1, y: (((a >> 8) % 4) as i8) - 1 });
+                steps += 1;
+            }
+            79..=86 => {
+                ops.push(Op::SwapChar { x1: (a % 8) as i8, y1: ((a >> 8) % 6) as i8, x2: ((a >> 16) % 8) as i8, y2: ((a >> 24) % 6) as i8 });
+                steps += 1;
+            }
+            87..=106 => ops.push(Op::MoveCaret { x: (a % 10) as i8, y: ((a >> 8) % 8) as i8 }),
+            107..=118 => ops.push(Op::SetCurrentLayer { l: (a % 240) as u8 }),
+            _ => {
+                ops.push(set_char(a));
+                steps += 1;
+            }
+        }
+        item_end.push(ops.len());
+    }
+    LongHistory { doc, ops, item_end, steps }
+}
+
+fn long_band(n: u32) -> &'static str {
+    match n {
+        0..=99 => "n<100",
+        100..=199 => "n=100-199",
+        200..=399 => "n=200-399",
+        400..=799 => "n=400-799",
+        800..=1599 => "n=800-1599",
+        1600..=3199 => "n=1600-3199",
+        3200..=6399 => "n=3200-6399",
+        _ => "n>=6400",
+    }
+}
+
+/// Oracle of the part `long_histories`: the plain round (undo all -> initial snapshot, redo all -> final snapshot, stack
+/// lengths, nothing left to redo), the number of registered steps against the model (one per step item, one per atomic
+/// group), and a walk "undo to the boundary, compare with the snapshot recorded there" for the boundaries one item before
+/// the end, in the middle, after the first item and back to the end.
+pub fn check_long(c: &LongCase) -> Verdict {
+    let mut lh = expand_long(c);
+    let mut ended = None;
+    let mut tries = 0;
+    let held = loop {
+        let n = lh.item_end.len();
+        if n == 0 {
+            return Verdict::pass(false, "long|ended_at_first_item");
+        }
+        let at = |j: usize| lh.item_end[j.min(n - 1)];
+        // boundaries: before the last item, the middle, after the first item, the end again
+        let targets = vec![if n >= 2 { at(n - 2) } else { 0 }, at(n / 2), at(0), lh.ops.len()];
+        match run_core_at(&lh.doc, &lh.ops, targets, Mode::Walk, Some(lh.steps)) {
+            Run::Ended { index, kind, panic } => {
+                // the alphabet is chosen to succeed always; if an operation fails anyway the history ends before its item
+                tries += 1;
+                ended.get_or_insert((kind, panic));
+                let keep = lh.item_end.iter().take_while(|e| **e <= index).count();
+                if tries > 3 {
+                    return Verdict::pass(false, "long|ended_repeatedly");
+                }
+                let full = expand_long(&LongCase { n: keep as u32, ..c.clone() });
+                lh = full;
+            }
+            Run::Failed(f) => {
+                let owner = f.owner.and_then(|i| lh.ops.get(i)).map(|o| o.kind()).unwrap_or_else(|| "?".into());
+                return Verdict::fail(
+                    format!("{}|long_history", f.class),
+                    format!("history of {} item(s) = {} operation(s), {} undo step(s) by the model; {} (operation owning the step crossed last: {owner})", n, lh.ops.len(), lh.steps, f.msg),
+                );
+            }
+            Run::Held(h) => break *h,
+        }
+    };
+    let _ = guarded(move || drop(held.st));
+    let class = match ended {
+        None => format!("long|{}", long_band(c.n)),
+        Some((k, p)) => format!("long|{}|{k}", if p { "ended_panic" } else { "ended_err" }),
+    };
+    Verdict::pass(held.changed && lh.steps >= 50, class)
+}
+
+pub fn minimize_long(c: &LongCase) -> Vec<LongCase> {
+    let mut out = Vec::new();
+    for n in [c.n / 2, c.n * 3 / 4, c.n.saturating_sub(64), c.n.saturating_sub(8), c.n.saturating_sub(1)] {
+        if n >= 1 && n < c.n && !out.iter().any(|x: &LongCase| x.n == n) {
+            out.push(LongCase { n, ..c.clone() });
+        }
+    }
+    if c.flips {
+        out.push(LongCase { flips: false, ..c.clone() });
+    }
+    if c.whole {
+        out.push(LongCase { whole: false, ..c.clone() });
+    }
+    if c.groups {
+        out.push(LongCase { groups: false, ..c.clone() });
+    }
+    if c.two_layers {
+        out.push(LongCase { two_layers: false, ..c.clone() });
+    }
+    if c.seed != 0 {
+        out.push(LongCase { seed: 0, ..c.clone() });
+    }
+    out
 }
 
 /// Simpler candidates for the engine's greedy minimiser (tried after proptest's own shrinking).
